@@ -15,6 +15,7 @@ SCRIPTS = [
     ["commit", "rollback", "ins"],
     ["begin", "ins", "api_commit"],
     ["begin", "ins", "api_rollback", "ins"],
+    ["begin", "ins", "badrt", "ins", "commit"],
 ]
 
 
@@ -63,6 +64,13 @@ def run_schedule(repo, sa, sb, sched, model="rc"):
             except Exception as e:  # noqa: BLE001
                 if getattr(e, "errno", None) != 2003:
                     return False, f"bad statement: {type(e).__name__} {e}"
+        elif op == "badrt":
+            # a statement that fails while running (a value that does not fit the column), not because of what it refers to
+            try:
+                cur.execute(f"insert into {tbl[who]} values ('not a number')")
+                return False, "badrt statement did not fail"
+            except Exception:  # noqa: BLE001
+                pass
         elif op in ("commit", "api_commit"):
             if op == "commit":
                 cur.execute("commit")
@@ -107,7 +115,7 @@ def run(tier="quick", seed=0, repo="/repo"):
     )
     pairs = list(itertools.combinations_with_replacement(range(len(SCRIPTS)), 2))
     if tier == "quick":
-        pairs = [(0, 1), (2, 3), (4, 5), (0, 2)]
+        pairs = [(0, 1), (2, 3), (4, 5), (0, 2), (6, 3)]
     for i, j in pairs:
         scheds = list(interleavings(SCRIPTS[i], SCRIPTS[j]))
         step = max(1, len(scheds) // (8 if tier == "quick" else 120))
@@ -119,6 +127,19 @@ def run(tier="quick", seed=0, repo="/repo"):
                     ok2, _ = run_schedule(repo, SCRIPTS[i], SCRIPTS[j], sched, model="si")
                     if ok2:
                         prefix = "tx-snapshot"  # explained exactly by DuckDB's snapshot isolation
+            except Exception as e:  # noqa: BLE001
+                ok, detail = False, f"{type(e).__name__}: {str(e)[:200]}"
+            try:
+                if not ok and prefix == "tx" and ("badrt" in SCRIPTS[i] or "badrt" in SCRIPTS[j]):
+                    # DuckDB aborts the whole transaction on a run-time failure: either the next statement is refused ...
+                    if "transaction is aborted" in detail:
+                        prefix = "tx-abort"
+                    else:
+                        # ... or COMMIT silently discards the earlier writes: the same schedule without the failing statement holds
+                        strip = lambda sc: [o for o in sc if o != "badrt"]  # noqa: E731
+                        ok3, _ = run_schedule(repo, strip(SCRIPTS[i]), strip(SCRIPTS[j]), [(w, o) for w, o in sched if o != "badrt"])
+                        if ok3:
+                            prefix = "tx-abort"
             except Exception as e:  # noqa: BLE001
                 ok, detail = False, f"{type(e).__name__}: {str(e)[:200]}"
             cid = f"{prefix}:{i}x{j}:" + ",".join(f"{w}.{o}" for w, o in sched)
